@@ -247,8 +247,20 @@ class CallGen:
         call = {"pos": self.args(rng, n), "kw": {},
                 "alt": self.args(rng, max(self.arities + [spec["npos"]]))}
         if self.used_kw and rng.random() < p_kw:
-            for k in rng.sample(self.used_kw, rng.randint(1, len(self.used_kw))):
-                call["kw"][k] = rng.choice(self.values)
+            with_kw = [m for m in spec["methods"] if m.get("kw")]
+            if with_kw and rng.random() < 0.7:
+                # aim the whole call at one method that declares keyword-only parameters
+                m = rng.choice(with_kw)
+                if len(m["pos"]) >= 1:
+                    k = rng.randint(sum(1 for p in m["pos"] if not p.get("opt")), len(m["pos"]))
+                    call["pos"] = [rng.choice(self.accepting(p.get("t")) or self.values) for p in m["pos"][:k]]
+                for kw in m["kw"]:
+                    if kw.get("req") or rng.random() < 0.6:
+                        acc = self.accepting(kw.get("t"))
+                        call["kw"][kw["n"]] = rng.choice(acc) if acc and rng.random() < 0.8 else rng.choice(self.values)
+            else:
+                for k in rng.sample(self.used_kw, rng.randint(1, len(self.used_kw))):
+                    call["kw"][k] = rng.choice(self.values)
         return call
 
 
